@@ -65,7 +65,7 @@ V_ENSURES(__CPROVER_return_value || (dl->tgt_check == V_OLD(dl->tgt_check) && V_
 V_ENSURES(__CPROVER_return_value || dl->zck->error_state > 0 || (V_OLD(dl->tgt_check)->valid == -1 && DL_POS(dl) == EXT_LO(dl->zck, V_OLD(dl->tgt_check)) + (g_off_t)V_OLD(dl->tgt_check)->comp_length && (!WW_IN(DL_FD(dl), EXT_LO(dl->zck, V_OLD(dl->tgt_check)), V_OLD(dl->tgt_check)->comp_length) || (g_ww_hit == V_OLD(g_ww_hit) + 1 && g_ww_val == 0)))) /*@C05.set_chunk_valid.mismatch_means_zero_filled_and_marked_failed*/
 V_ENSURES(WW_IN(DL_FD(dl), EXT_LO(dl->zck, V_OLD(dl->tgt_check)), V_OLD(dl->tgt_check)->comp_length) || WW_SAME) /*@C05,C17.set_chunk_valid.nothing_outside_the_chunk_extent_is_written*/
 V_ENSURES(WW_SAME || g_ww_val == 0) /*@C05.set_chunk_valid.only_zeros_are_written*/
-V_ENSURES((V_OLD(dl->zck->error_state) > 0 && dl->zck->check_chunk_hash.ctx == V_OLD(dl->zck->check_chunk_hash.ctx) && dl->zck->check_chunk_hash.type == V_OLD(dl->zck->check_chunk_hash.type)) || (dl->zck->check_chunk_hash.ctx == NULL && dl->zck->check_chunk_hash.type == NULL)) /*@C05.set_chunk_valid.running_hash_closed*/
+V_ENSURES((!__CPROVER_return_value && dl->zck->check_chunk_hash.ctx == V_OLD(dl->zck->check_chunk_hash.ctx) && dl->zck->check_chunk_hash.type == V_OLD(dl->zck->check_chunk_hash.type)) || (dl->zck->check_chunk_hash.ctx == NULL && dl->zck->check_chunk_hash.type == NULL)) /*@C05.set_chunk_valid.running_hash_closed_or_untouched_on_failure*/   /* untouched: context in error, or hash_finalize out of memory (12.2) */
 ;
 
 
